@@ -404,7 +404,7 @@ enum HarnessErr {
 impl Observer {
     async fn establish(cfg: &ObsCfg, tables: &TableHandle, listener: &TcpListener) -> Result<Observer, HarnessErr> {
         let addr = listener.local_addr().map_err(|e| HarnessErr::Io(e.to_string()))?;
-        let client = TcpStream::connect(addr).await.map_err(|e| HarnessErr::Io(e.to_string()))?;
+        let client = crate::verif_hooks::connect_retry(addr).await.map_err(|e| HarnessErr::Io(e.to_string()))?;
         let (server, _) = listener.accept().await.map_err(|e| HarnessErr::Io(e.to_string()))?;
         // thousands of short-lived connections per process: close with RST so no
         // socket lingers in TIME_WAIT and the ephemeral port range is not exhausted
@@ -1058,7 +1058,7 @@ fn run() {
     let mut rep = Report::new("C01", &params);
     let rt = tokio::runtime::Builder::new_current_thread().enable_all().build().expect("runtime");
     let mut rng = Rng::new(params.seed ^ 0xC01);
-    let listener = match rt.block_on(TcpListener::bind("127.0.0.1:0")) {
+    let listener = match rt.block_on(crate::verif_hooks::bind_retry("127.0.0.1:0".parse().unwrap())) {
         Ok(l) => l,
         Err(e) => {
             rep.inconclusive(&format!("cannot bind a loopback listener: {}", e));
